@@ -9,6 +9,9 @@ where the abstraction loses nothing (`unit_list_eq_replicate`).
 import Woodpile.Model.ZDeque
 import Woodpile.Proofs.SlidingDeque
 
+-- `cases b <;> simp [...]` closes both branches with one argument list
+set_option linter.unusedSimpArgs false
+
 namespace Woodpile.SlidingDeque
 variable {α : Type}
 
